@@ -64,31 +64,32 @@ Definition t05_case (k : c05case) : nat :=
 Definition t06_case (k : list nat * option nat * list nat) : bool :=
   let '(hand, led, res) := k in list_eqb Nat.eqb res (idxs (available (map cn hand) (option_map cn led))).
 
-Definition c11case := (nat * nat * list (list nat) * list (nat * nat) * list (list (bool * proj) * (list nat * option (list nat) * list (nat * list nat))))%type.
+Definition c11obs := (list (nat * nat) * list (bool * bool * proj) * (list nat * option (list nat) * list (nat * list nat)))%type.
+Definition c11case := (nat * nat * list (list nat) * list c11obs)%type.
 (* the harness sets dummy's hand right after the first accepted card, for observers other than dummy *)
-Fixpoint t11_walk (dummy_cards : list card) (s : ostate) (ops : list (nat * nat)) (obs : list (bool * proj)) (i : nat) : nat * ostate :=
+Fixpoint t11_walk (deal : list (list nat)) (s : ostate) (started : bool) (ops : list (nat * nat)) (obs : list (bool * bool * proj)) (i : nat) : nat * ostate :=
   match ops, obs with
   | [], [] => (0, s)
-  | (c, p) :: os, (ok, pj) :: bs =>
+  | (c, p) :: os, (ok, unch, pj) :: bs =>
       let (s1, r) := obs_play_by s (cn c) (sn p) in
-      let s' := if (i =? 0) && negb (seat_beq (ome s) (dummy (obase s))) then set_dummy_hand s1 dummy_cards else s1 in
-      if Bool.eqb ok (match r with POk => true | PRaises => false end) && proj_eqb pj (mproj (obase s'))
-      then t11_walk dummy_cards s' os bs (S i) else (S i, s)
+      let acc := match r with POk => true | PRaises => false end in
+      let dm := dummy (obase s) in
+      let s' := if acc && negb started && negb (seat_beq (ome s) dm)
+                then set_dummy_hand s1 (if seat_beq (sn p) dm then remove_card (deal_fn deal dm) (cn c) else deal_fn deal dm) else s1 in
+      if Bool.eqb ok acc && Bool.eqb unch (negb acc) && proj_eqb pj (mproj (obase s'))
+      then t11_walk deal s' (started || acc) os bs (S i) else (S i, s)
   | _, _ => (S i, s) end.
-Definition t11_observer (b d : nat) (deal : list (list nat)) (ops : list (nat * nat)) (me : nat)
-           (o : list (bool * proj) * (list nat * option (list nat) * list (nat * list nat))) : nat :=
-  let '(steps, (fh, fd, fhist)) := o in
+Definition t11_observer (b d : nat) (deal : list (list nat)) (me : nat) (o : c11obs) : nat :=
+  let '(ops, steps, (fh, fd, fhist)) := o in
   match init_obs (kontract b d) (sn me) (deal_fn deal (sn me)) with
   | None => 998
   | Some o0 =>
-    let dm := dummy (obase o0) in
-    let dummy_cards := match ops with (c, p) :: _ => if seat_beq (sn p) dm then remove_card (deal_fn deal dm) (cn c) else deal_fn deal dm | [] => [] end in
-    let '(r, f) := t11_walk dummy_cards o0 ops steps 0 in
+    let '(r, f) := t11_walk deal o0 false ops steps 0 in
     if r =? 0 then
       (if list_eqb Nat.eqb fh (idxs (ohand f)) && opt_eqb (list_eqb Nat.eqb) fd (option_map idxs (odummy f)) && hist_eqb fhist (tricks (obase f))
        then 0 else 1000)
     else r end.
 Definition t11_case (k : c11case) : nat :=
-  let '(b, d, deal, ops, obss) := k in
-  fold_right (fun '(me, o) acc => let r := t11_observer b d deal ops me o in if r =? 0 then acc else 2000 * (S me) + r)
+  let '(b, d, deal, obss) := k in
+  fold_right (fun '(me, o) acc => let r := t11_observer b d deal me o in if r =? 0 then acc else 2000 * (S me) + r)
              0 (combine (seq 0 4) obss).
